@@ -56,6 +56,8 @@ def monitor_c15(suite) -> tuple[list, int]:
             vio.append({"law": "time_resolution only for simulators whose signatures take it", **case})
         if version < [3] and obs["type"] != "0":
             vio.append({"law": "missing type defaults to time-based before v3", **case})
+        if obs.get("etype", "2") != "2":
+            vio.append({"law": "an explicitly reported simulator type (hybrid) is respected, whatever the version", **case})
         if (obs["warn"] == "1") != (version < [3] and exp is None):
             vio.append({"law": "outdated warning", **case})
     return vio, n
